@@ -249,9 +249,14 @@ class Prop(common.PropertyCheck):
             else:
                 scs = [(lambda m, b: (lambda x: np.sign(x) * np.exp(b) * (np.abs(x) ** m)))(case['m'][c], case['b'][c]) for c in sc_cols]
             sc_ch = [names[c] for c in sc_cols]
-            gated_first = FlowCal.transform.to_mef(FlowCal.gate.high_low(rfi), ch2, scs, sc_ch)
+            # the RFI sample is converted first and used again afterwards (gated, then converted): it still holds RFI values and RFI limits
+            rfi_fp = fp(rfi)
+            rfi_keep = rfi.copy()
             mef = FlowCal.transform.to_mef(rfi, ch2, scs, sc_ch)
-            limits_check(rfi, mef, ccols, 'to_mef')
+            if fp(rfi) != rfi_fp or mef is rfi:
+                out['problems'].append('to_mef(channels=%s) changed the RFI sample it was given (events or range limits): gating that sample afterwards is no longer gating before the conversion' % (ch2,))
+            gated_first = FlowCal.transform.to_mef(FlowCal.gate.high_low(rfi), ch2, scs, sc_ch)
+            limits_check(rfi_keep, mef, ccols, 'to_mef')
             m2 = FlowCal.gate.high_low(mef, full_output=True).mask
             g2 = FlowCal.gate.high_low(mef, gl, full_output=True).mask
             if not np.array_equal(g1, g2):
